@@ -19,13 +19,32 @@ class UInt(int):
 UInt.__name__ = "UInt[8]"
 
 
+def mkfn(pos, req, kwreq, ret, name):
+    """A function value with annotated parameters; its signature as a term rides along (vterm)"""
+    names = {1: "object", 5: "int", 6: "bool", 7: "str"}
+    params = [f"p{i}: {names[c]}" + ("" if i < req else " = None") for i, c in enumerate(pos)]
+    if kwreq:
+        params.append("*, k: int")
+    ns = {}
+    exec(f"def {name}({', '.join(params)}) -> {names[ret]}:\n    return None\n", ns)
+    fn = ns[name]
+    fn.__vfsig__ = {"t": "fn", "pos": list(pos), "req": req, "kwreq": bool(kwreq), "ret": ret}
+    return fn
+
+
+FUNCS = [
+    mkfn([5], 1, False, 5, "f_int_int"), mkfn([1], 1, False, 7, "f_obj_str"), mkfn([5, 7], 1, False, 6, "f_int_optstr_bool"),
+    mkfn([5, 5], 2, False, 1, "f_int_int_obj"), mkfn([5], 1, True, 5, "f_int_reqkw_int"), mkfn([], 0, False, 1, "f_none_obj"),
+    mkfn([6], 1, False, 5, "f_bool_int"),
+]
+
 # classes: 1 object, 2 Collection, 3 Sequence, 4 Mapping, 5 int, 6 bool, 7 str, 8 tuple, 9 list, 10 dict, 11 float, 12 NoneType,
 # 13 Mode (an IntEnum), 14 UInt (an unhashable int)
-PARENTS = [[], [1], [2], [2], [1], [5], [3], [3], [3], [4], [1], [1], [5], [5]]
+PARENTS = [[], [1], [2], [2], [1], [5], [3], [3], [3], [4], [1], [1], [5], [5], [1]]
 CLS = {"object": 1, "Collection": 2, "Sequence": 3, "Mapping": 4, "int": 5, "bool": 6, "str": 7, "tuple": 8,
-       "list": 9, "dict": 10, "float": 11, "NoneType": 12, "Mode": 13, "UInt": 14}
+       "list": 9, "dict": 10, "float": 11, "NoneType": 12, "Mode": 13, "UInt": 14, "function": 15}
 PYCLS = {1: object, 2: Collection, 3: Sequence, 4: Mapping, 5: int, 6: bool, 7: str, 8: tuple, 9: list, 10: dict,
-         11: float, 12: type(None), 13: Mode, 14: UInt}
+         11: float, 12: type(None), 13: Mode, 14: UInt, 15: type(mkfn)}
 
 
 def cls(name):
@@ -50,6 +69,8 @@ def vterm(v):
         return {"t": "list", "v": [arg(x) for x in v]}
     if isinstance(v, dict):
         return {"t": "dict", "ks": [vterm(k) for k in v], "karg": [arg(k) for k in v], "vs": [arg(x) for x in v.values()]}
+    if hasattr(v, "__vfsig__"):
+        return dict(v.__vfsig__)
     raise ValueError(v)
 
 
@@ -63,6 +84,7 @@ CORPUS = [
     (), (1,), (1, "a"), ("a", 1), (1, 2), (True, "a"), ("a",), (1, "a", 2),
     [], [1], ["a"], [1, "a"], ["a", 1],
     {}, {"a": 1}, {"b": "x"}, {1: "a"}, {"a": "x", "b": 2},
+    *FUNCS,
 ]
 
 
@@ -114,6 +136,10 @@ def types(big=False):
     T.append({"k": "union", "args": [lt, l2], "py": ["or", lt["py"], l2["py"]]})
     T.append({"k": "union", "args": [l2, lt], "py": ["or", l2["py"], lt["py"]]})
     T.append({"k": "prod", "args": [l0, sw], "bound": cls("tuple"), "py": ["prod", [l0, sw]]})
+    # beyond C11's list (X4): Callable[[A1, .., An], R]
+    B_ = cls("bool")
+    for args_, ret_ in (([I], O), ([I], I), ([B_], I), ([I, S], O), ([O], O), ([], O), ([I, I], O), ([I], B_)):
+        T.append({"k": "callable", "args": args_, "ret": ret_, "py": ["callable", args_, ret_]})
     # a member class whose __name__ is not an identifier ('UInt[8]', the way generic factories name specialisations)
     U = cls("UInt")
     T.append({"k": "prod", "args": [U, I], "bound": cls("tuple"), "py": ["prod", [U, I]]})
@@ -162,6 +188,10 @@ def real(py):
     if k == "map":
         o = {"Mapping": typing.Mapping, "dict": dict}[py[1]]
         return o[real_term(py[2]), real_term(py[3])]
+    if k == "callable":
+        import collections.abc
+
+        return collections.abc.Callable[[real_term(a) for a in py[1]], real_term(py[2])]
     if k == "sw":
         return StartsWith[py[1]]
     if k == "ew":
